@@ -2,6 +2,7 @@ package server
 
 import (
 	"context"
+	"errors"
 	"fmt"
 	"io"
 	"log/slog"
@@ -142,6 +143,18 @@ func generateContentRangeValue(br storage.ByteRange, objectSize int64) string {
 
 var errInvalidByteRange error = fmt.Errorf("invalid byte range")
 
+// parseBytePos parses a byte position or suffix length of a Range header.
+// The grammar (1*DIGIT) does not bound the value: a number that does not fit
+// into an int64 is valid and lies beyond the end of any object, so it is
+// clamped to MaxInt64 instead of being rejected.
+func parseBytePos(value string) (int64, error) {
+	pos, err := strconv.ParseInt(value, 10, 64)
+	if errors.Is(err, strconv.ErrRange) && pos == math.MaxInt64 {
+		return pos, nil
+	}
+	return pos, err
+}
+
 // parseRangeHeader parses HTTP Range header and returns storage.ByteRange array.
 // It converts HTTP ranges (inclusive end) to storage ranges (exclusive end) automatically.
 // Suffix ranges (bytes=-N) are passed through as-is to be resolved by the storage layer.
@@ -168,14 +181,14 @@ func parseRangeHeader(rangeHeader string) ([]storage.ByteRange, error) {
 		var end *int64
 
 		if byteSplit[0] != "" {
-			startByte, err := strconv.ParseInt(byteSplit[0], 10, 64)
+			startByte, err := parseBytePos(byteSplit[0])
 			if err != nil {
 				return nil, errInvalidByteRange
 			}
 			start = &startByte
 		}
 		if byteSplit[1] != "" {
-			endByte, err := strconv.ParseInt(byteSplit[1], 10, 64)
+			endByte, err := parseBytePos(byteSplit[1])
 			if err != nil {
 				return nil, errInvalidByteRange
 			}
